@@ -58,6 +58,15 @@ package dagsync
 //@   property C15 C14
 //@   requires subOK(s)
 //@   shutdown closing
+// every listener gets a queue of its own that never refuses an event (ASSUMED: a chanqueue made without
+// options is unbounded), so a listener that does not read delays neither the distributor nor the others;
+// the channel registered is that queue's input and the channel handed out its output
+//@   ghost q := 0
+//@   at call New#1: assert len(arg0) == 0
+//@   at call New#1: after ghost q := result
+//@   at call In#1: assert arg0 == q
+//@   at call Out#1: assert arg0 == q
+//@   ensures-local count("call:New") == 1
 
 // The event distributor (C14). Per loop iteration: an event received is sent
 // exactly once to every registered channel, in registration order, and the list
@@ -386,8 +395,11 @@ package dagsync
 
 // The constructor establishes the subscriber invariant every entry point requires.
 //@ func NewSubscriber
-//@   property C15
+//@   property C15 C14
 //@   requires host != nil
+// registration and removal of listeners are rendezvous with the distributor (unbuffered channels): when
+// OnSyncFinished returns, the listener is in the distributor's list (C14: it receives every later event)
+//@   ensures result1 == nil ==> chancap(result0.addEventChan) == 0 && chancap(result0.rmEventChan) == 0
 //@   ensures result1 == nil ==> subOK(result0)
 //@   ensures result1 != nil ==> result0 == nil
 
